@@ -5,6 +5,8 @@ package main
 import (
 	"bytes"
 	"context"
+	"crypto/sha256"
+	"encoding/hex"
 	"fmt"
 	"os"
 	"os/exec"
@@ -151,6 +153,7 @@ type solveCfg struct {
 	scratch  string
 	parallel int
 	retried  bool
+	cacheDir string
 }
 
 func runOne(ctx context.Context, sp solverSpec, body string, cfg *solveCfg, id int) (string, string, float64) {
@@ -199,6 +202,24 @@ func runOne(ctx context.Context, sp solverSpec, body string, cfg *solveCfg, id i
 	return "error", s, dt
 }
 
+var freshTok = regexp.MustCompile(`[^\s()|]+![0-9]+`)
+
+// canonicalQuery renames the fresh symbols of a query (prefix!N, numbered globally in generation order) by order of
+// first appearance. Two queries with the same canonical text differ only in the names of their unknowns, so an
+// `unsat` for one is an `unsat` for the other; the solvers are always given the original text.
+func canonicalQuery(body string) string {
+	m := map[string]string{}
+	return freshTok.ReplaceAllStringFunc(body, func(t string) string {
+		if r, ok := m[t]; ok {
+			return r
+		}
+		i := strings.LastIndexByte(t, '!')
+		r := fmt.Sprintf("%s!c%d", t[:i], len(m)+1)
+		m[t] = r
+		return r
+	})
+}
+
 var oblCounter int
 var oblMu sync.Mutex
 
@@ -212,6 +233,31 @@ func discharge(o *Obligation, cfg *solveCfg) {
 		return
 	}
 	body := o.SMTBody()
+	// Answers to byte-identical queries are reused within and across the checks of the quick tier (every plan
+	// re-proves the library and schema contracts it rests on, so the twenty checks share most of their queries).
+	// The key is the SHA-256 of the complete query text (prelude included); only `unsat` is stored. The thorough tier
+	// never reads the cache.
+	var ckey string
+	if cfg.cacheDir != "" {
+		h := sha256.Sum256([]byte(canonicalQuery(body)))
+		ckey = hex.EncodeToString(h[:])
+		if b, err := os.ReadFile(filepath.Join(cfg.cacheDir, ckey[:2], ckey)); err == nil && strings.HasPrefix(string(b), "unsat ") {
+			o.Status, o.Backend, o.Seconds = "unsat", "cache("+strings.TrimSpace(strings.TrimPrefix(string(b), "unsat "))+")", 0
+			o.Output = "answer reused: an identical query (sha256 " + ckey[:16] + "…) was answered unsat by " + strings.TrimSpace(strings.TrimPrefix(string(b), "unsat ")) + " earlier"
+			return
+		}
+	}
+	defer func() {
+		if ckey != "" && o.Status == "unsat" && !strings.HasPrefix(o.Backend, "cache(") {
+			d := filepath.Join(cfg.cacheDir, ckey[:2])
+			if os.MkdirAll(d, 0o755) == nil {
+				tmp := filepath.Join(d, fmt.Sprintf(".%s.%d", ckey, os.Getpid()))
+				if os.WriteFile(tmp, []byte("unsat "+o.Backend+"\n"), 0o644) == nil {
+					os.Rename(tmp, filepath.Join(d, ckey))
+				}
+			}
+		}
+	}()
 	oblMu.Lock()
 	oblCounter++
 	id := oblCounter
